@@ -95,6 +95,12 @@ pub fn run_request<'c>(
         if fed >= wire.len() {
             return Ok(ReqRun { parser, fed, done: false, fed_before_done_call: fed, output, calls, feeding_calls });
         }
+        // Parsers are `Clone`: carry on with a clone once at the very start and once mid-way
+        // (a clone must be a fully functional parser with the same buffer)
+        if feeding_calls == 0 || feeding_calls == 3 {
+            let c = parser.clone();
+            parser = c;
+        }
         let buf = parser.input_buffer();
         vensure!(!buf.is_empty(), "req-empty-input-buffer", "request parser is not done but offers an empty input buffer after {fed} bytes");
         let n = buf.len().min(chunking.size(feeding_calls)).min(wire.len() - fed);
@@ -211,6 +217,11 @@ impl<'c, 'w> StreamDrv<'c, 'w> {
         if dest_cap.is_some() && !self.p.stream_buffer().is_empty() {
             // documented precondition: stream_buffer must be consumed before using dest
             self.consume_stream(usize::MAX, t)?;
+        }
+        if self.parse_calls == 2 {
+            // stream parsers are `Clone` too: continue on a clone once
+            let c = self.p.clone();
+            self.p = c;
         }
         let n = {
             let buf = self.p.input_buffer();
